@@ -141,6 +141,7 @@ func runC18B(e *Env, r *core.Run) {
 		}
 		return t.W(len(txs))
 	}
+	entries := 0
 	for i := range scripts {
 		n := 1 + t.W(5)
 		for j := 0; j < n; j++ {
@@ -155,6 +156,13 @@ func runC18B(e *Env, r *core.Run) {
 				for k := 1 + t.W(3); k > 0; k-- {
 					op.txs = append(op.txs, pickTx())
 				}
+				if e.Deep() && t.W(6) == 0 {
+					// a batch past the Pippenger threshold, preempted inside the multiscalar multiplication
+					for len(op.txs) < 95+t.W(4) {
+						op.txs = append(op.txs, pickTx())
+					}
+				}
+				entries += len(op.txs)
 				op.seed = uint32(t.W(1 << 20))
 			}
 			scripts[i] = append(scripts[i], op)
@@ -166,7 +174,12 @@ func runC18B(e *Env, r *core.Run) {
 	v := cache.NewVerifier(c)
 	probe := newLRUProbe(c)
 	sim := e.Sim
-	sim.Begin(rt.Config{Draw: func(n int) int { return t.Draw(core.SS, n) }, EstYields: total * 20, MaxYields: uint64(total*20*50 + 2000)})
+	cfg := rt.Config{Draw: func(n int) int { return t.Draw(core.SS, n) }, EstYields: total * 20, MaxYields: uint64(total*20*50 + 2000)}
+	if e.Deep() {
+		// yields inside the group arithmetic: some thousands per operation (measured), a Pippenger-sized batch far more
+		cfg.EstYields, cfg.MaxYields, cfg.Dense = total*3000+entries*2500, uint64(total)*5000000+uint64(entries)*2000000, true
+	}
+	sim.Begin(cfg)
 	logs := make([]*core.Log, ntasks)
 	for i := range logs {
 		logs[i] = r.NewLog(i)
